@@ -41,6 +41,7 @@ func vfCalls(name string) int
 func vfWatch(name string)
 func vfArgU64(name string, i int) uint64
 func vfWitness0() uint64
+func vfConcurrency(mode int)
 `, pkg)
 }
 
@@ -131,6 +132,7 @@ func vfUFOff(name string)      {}
 func vfCalls(name string) int  { return 0 }
 func vfWatch(name string)      {}
 func vfArgU64(name string, i int) uint64 { return 0 }
+func vfConcurrency(mode int) {}
 func vfWitness0() uint64 {
 	if len(vfWitness) > 0 {
 		return vfWitness[0]
